@@ -298,11 +298,14 @@ func sharedStateScenario(r *Run) {
 // proceed; a LIMIT ends the query after a few dozen lookups. Oracle: the query terminates.
 func nestedPoolScenario(r *Run) {
 	t := r.Tape
-	hdr := t.Block(8)
+	hdr := t.Block(12)
 	// 9 000 lines = 141 batches, just beyond the 128 parsed batches the consumer's channel holds; 20 000 lines =
 	// 313 batches, beyond that plus the pool's own queue: the sizes at which "how far may the reader run ahead"
 	// starts to matter
 	nA := []int{130, 700, 1500, 2300, 9000, 20000}[hdr.Weighted(4, 6, 6, 2, 1, 1)]
+	if v := os.Getenv("VERIF_C29_NA"); v != "" {
+		fmt.Sscan(v, &nA) // diagnosis only
+	}
 	nB := 1 + hdr.Draw(3)
 	workers := 1 + hdr.Draw(4)
 	limit := 20 + hdr.Draw(60)
@@ -323,7 +326,18 @@ func nestedPoolScenario(r *Run) {
 		r.Infra("write: %v", err)
 		return
 	}
+	// the LIMIT above a LOOKUP JOIN consolidates (the plan may retract) and reads everything; above a single file
+	// or a stream join of two files it is a plain counter that stops the query early, with most of the big
+	// file still unread, its reader ahead by as many batches as it may, and the pool busy
 	sql := fmt.Sprintf("SELECT a.id, b.id FROM c29la.json a LOOKUP JOIN c29lb.json b ON a.g = b.g LIMIT %d", limit)
+	switch hdr.Draw(3) {
+	case 1:
+		sql = fmt.Sprintf("SELECT a.id, a.g FROM c29la.json a LIMIT %d", limit)
+		attrs["scenario"] = "json_limit"
+	case 2:
+		sql = fmt.Sprintf("SELECT a.id, b.id FROM c29la.json a JOIN c29lb.json b ON a.g = b.g LIMIT %d", limit)
+		attrs["scenario"] = "json_join_limit"
+	}
 	r.Log("sql: %s", sql)
 	r.Log("a=%d rows b=%d rows workers=%d ahead=%d%%", nA, nB, workers, aheadPct)
 	r.Shape("lookup", nA, nB, workers, limit, aheadPct)
@@ -369,7 +383,7 @@ func nestedPoolScenario(r *Run) {
 	r.Probe("early_stop_by_limit")
 	r.Log("run returned err=%v finished=%v deadlock=%v steps=%d", errString(oc.Err), oc.Finished, oc.Deadlock, oc.Steps)
 	if oc.Deadlock {
-		r.Violate("C29", "deadlock", attrs, "query neither finished nor has any parked hand-off left: the outer file's parsed batches and the nested lookup starve each other of the shared parser pool (%s, %d workers)", sql, workers)
+		r.Violate("C29", "deadlock", attrs, "query neither finished nor has any parked hand-off left (%s, %d workers, %d lines in the big file): the line reader, the parser pool and the consumer wait for each other", sql, workers, nA)
 		return
 	}
 	if !oc.Finished {
